@@ -37,7 +37,7 @@ import Thanos.Model.CompactSync
 
   C33   c33.fault <layout> <lister> <call> <sync> <readKind> <n> <outcome>     (layout, lister, call, sync, n: for the Go side)
           readKind = listing | exists-meta | get-meta | get-deletion-mark | get-no-compact-mark
-          outcome  = notfound | corrupt | badversion | failed
+          outcome  = notfound | corrupt | badversion | failed | body0 | bodyhalf | bodylast (Get succeeds, the body breaks after 0 / half / all-but-one bytes)
         answer: sync=failed compact=err writes-after=0 | sync=ok compact=n/a writes-after=n/a
         c33.multi <layout> <lister> <conc> <call> <sync> <faults>     faults = <readKind>:<n>:<outcome>,…  (several reads of ONE sync)
         answer: as above
@@ -276,6 +276,9 @@ def parseOutcome : String → Option CompactSync.Outcome
   | "corrupt" => some .corrupt
   | "badversion" => some .badVersion
   | "failed" => some .failed
+  | "body0" => some .bodyError
+  | "bodyhalf" => some .bodyError
+  | "bodylast" => some .bodyError
   | _ => none
 
 def c33Fault (kind outcome : String) : String :=
